@@ -122,6 +122,47 @@ pub fn run(l: &[i128]) -> Vec<i128> {
             }
             vec![a.data().iter().zip(bb.data()).filter(|(x, y)| x != y).count() as i128]
         }
+        Some(10) if l.len() >= 17 => {
+            // a DASHED stroke: stroke_path(path, stroke, ts) == fill_path(path.dash(d, rs).stroke(stroke, rs), ts) with the resolution
+            // scale rs taken from its definition (the dasher measures curves with a tolerance that depends on it)
+            use tiny_skia::{Stroke, StrokeDash};
+            let t = ts(&l[1..7]);
+            let width = f(l[7]);
+            let aa = l[8] != 0;
+            let (d0, d1) = (f(l[9]), f(l[10]));
+            let pts: Vec<f32> = l[11..].iter().map(|x| f(*x)).collect();
+            if pts.len() < 8 {
+                return vec![-3];
+            }
+            let mut pb = PathBuilder::new();
+            pb.move_to(pts[0], pts[1]);
+            for c in pts[2..].chunks_exact(6) {
+                pb.cubic_to(c[0], c[1], c[2], c[3], c[4], c[5]);
+            }
+            let path = match pb.finish() {
+                Some(p) => p,
+                None => return vec![-2],
+            };
+            let dash = match StrokeDash::new(vec![d0, d1], 0.0) {
+                Some(d) => d,
+                None => return vec![-2],
+            };
+            let mut paint = Paint::default();
+            paint.set_color_rgba8(20, 150, 100, 255);
+            paint.anti_alias = aa;
+            let stroke = Stroke { width, dash: Some(dash.clone()), ..Stroke::default() };
+            let mut a = Pixmap::new(96, 96).unwrap();
+            let mut bb = Pixmap::new(96, 96).unwrap();
+            a.stroke_path(&path, &paint, &stroke, t, None);
+            let row = |x: f32, y: f32| (x * x + y * y).sqrt();
+            let (r1, r2) = (row(t.sx, t.kx), row(t.ky, t.sy));
+            let rs = if r1.is_finite() && r2.is_finite() && r1.max(r2) > 0.0 { r1.max(r2) } else { 1.0 };
+            let plain = Stroke { width, ..Stroke::default() };
+            if let Some(sp) = path.dash(&dash, rs).and_then(|dp| dp.stroke(&plain, rs)) {
+                bb.fill_path(&sp, &paint, FillRule::Winding, t, None);
+            }
+            vec![a.data().iter().zip(bb.data()).filter(|(x, y)| x != y).count() as i128, a.data().iter().filter(|x| **x != 0).count() as i128]
+        }
         Some(8) if l.len() == 13 => {
             // fill_rect(rect, paint, ts) == fill_path(rect as a path, paint, ts) for a paint whose shader must follow the transform
             // (aliased, whole-pixel rectangle: both rasterise the same pixels)
